@@ -13,7 +13,7 @@ use std::collections::BTreeMap;
 pub const INFO: PropInfo = PropInfo {
     id: "C13",
     level: "exploration",
-    rule: "cases = (race-free program with <=5 concurrently live processes: pipelines of 1-4 stages (probe lists, cat, gen N, sink, nested subshells), pipefail on/off, asynchronous lists with $! captured, wait / wait PID (also an already-waited and an unknown pid), pipelines whose last stage exits without reading while upstream stages still hold more than the pipes can buffer (writers must end with EPIPE, not block), subshells, command substitutions; schedule set). Schedules: FIFO, then depth-first enumeration of the scheduler's choice vectors up to a budget, then seeded random choosers, all with preemption points on. Oracle per schedule: shell finishes (no deadlock / step bound), per-process probe traces (multiset), stdout lines (multiset), final status and stderr emptiness equal the reference model and therefore equal across schedules; at exit every child of the shell is terminated and reaped. Non-trivial = the program was run under >= 2 distinct choice vectors that differ from FIFO with >= 2 runnable processes at some step; distinct by serialised program.",
+    rule: "cases = (race-free program with <=5 concurrently live processes: pipelines of 1-4 stages (probe lists, cat, gen N, sink, nested subshells), pipefail on/off, asynchronous lists with $! captured, wait / wait PID (also an already-waited and an unknown pid), pipelines whose last stage exits without reading while upstream stages still hold more than the pipes can buffer (writers must end with EPIPE, not block), pipeline components that stop themselves with SIGSTOP and are resumed from outside when everything else is blocked (the shell must wait for their real end), subshells, command substitutions; schedule set). Schedules: FIFO, then depth-first enumeration of the scheduler's choice vectors up to a budget, then seeded random choosers, all with preemption points on. Oracle per schedule: shell finishes (no deadlock / step bound), per-process probe traces (multiset), stdout lines (multiset), final status and stderr emptiness equal the reference model and therefore equal across schedules; at exit every child of the shell is terminated and reaped. Non-trivial = the program was run under >= 2 distinct choice vectors that differ from FIFO with >= 2 runnable processes at some step; distinct by serialised program.",
     assumptions: &[
         "interleavings exist only at blocking points and at the hook's preemption points (system-call boundaries of wait/read/write); the real OS is not explored",
         "liveness is decided as: no explored schedule deadlocks or exceeds the step bound",
@@ -63,6 +63,10 @@ pub enum Cmd {
     /// have more than the pipes can hold, so every writer must see EPIPE (status 1 in the simulated
     /// system, which has no SIGPIPE) instead of blocking for ever
     EarlyExit { extra: u16, cats: u8, st: u8 },
+    /// a pipeline component stops itself (SIGSTOP) and is resumed from outside once everything
+    /// else is blocked: `st 0 | { selfkill STOP; st K; }` (last) or `{ selfkill STOP; st K; } | cat`.
+    /// The shell has no job control here, so it must go on waiting for the component's real end.
+    StopStage { st: u8, last: bool },
 }
 
 fn early_exit_len(extra: u16, cats: u8) -> usize {
@@ -206,6 +210,13 @@ fn render_cmd(c: &Cmd, r: &mut Ren, nbg: &mut u8) {
             r.out.push_str(" )");
         }
         Cmd::Pipefail(on) => r.out.push_str(if *on { "set -o pipefail" } else { "set +o pipefail" }),
+        Cmd::StopStage { st, last } => {
+            if *last {
+                r.out.push_str(&format!("st 0 | {{ selfkill STOP; st {st}; }}"));
+            } else {
+                r.out.push_str(&format!("{{ selfkill STOP; st {st}; }} | cat"));
+            }
+        }
         Cmd::EarlyExit { extra, cats, st } => {
             r.out.push_str(&format!("gen {}{} | st {st}", early_exit_len(*extra, *cats), crate::props::c13::cats(*cats % 3)));
         }
@@ -322,6 +333,12 @@ impl M {
                     p.pipefail = *on;
                     p.status = 0;
                 }
+                Cmd::StopStage { st, last } => {
+                    self.children.push(vec![]);
+                    self.children.push(vec![]);
+                    self.max_live = self.max_live.max(2);
+                    p.status = if *last || p.pipefail { *st as i32 } else { 0 };
+                }
                 Cmd::EarlyExit { cats, st, .. } => {
                     let n = 2 + (*cats % 3) as usize;
                     for _ in 0..n {
@@ -424,6 +441,7 @@ fn check_sched(c: &SchedCase) -> Outcome {
         s.chooser = chooser;
         s.preempt = true;
         s.max_steps = 50_000;
+        s.cont_on_stall = true;
         vsys::run(&s)
     };
     let (runs, exhausted) = vsys::dfs_schedules(budget, mk, |r, taken| {
@@ -463,6 +481,7 @@ fn check_sched(c: &SchedCase) -> Outcome {
         .class_if(prog_has(&prog, &|c| matches!(c, Cmd::Pipefail(true))), "pipefail")
         .class_if(prog_has(&prog, &|c| matches!(c, Cmd::CmdSub(_))), "command-substitution")
         .class_if(prog_has(&prog, &|c| matches!(c, Cmd::EarlyExit { .. })), "last-stage-exits-before-writers")
+        .class_if(prog_has(&prog, &|c| matches!(c, Cmd::StopStage { .. })), "component-stopped-and-resumed")
 }
 
 fn prog_has(p: &[Cmd], f: &dyn Fn(&Cmd) -> bool) -> bool {
@@ -489,6 +508,7 @@ fn arb_cmd() -> impl Strategy<Value = Cmd> {
         1 => Just(Cmd::WaitUnknown),
         1 => any::<bool>().prop_map(Cmd::Pipefail),
         2 => (0u16..1500, 0u8..3, 0u8..4).prop_map(|(extra, cats, st)| Cmd::EarlyExit { extra, cats, st }),
+        2 => (0u8..4, any::<bool>()).prop_map(|(st, last)| Cmd::StopStage { st, last }),
     ];
     leaf.prop_recursive(3, 16, 3, |inner| {
         let list = prop::collection::vec(inner.clone(), 1..3);
